@@ -406,6 +406,7 @@ LEVEL_TEXT = (
     "the arguments passed to the coupling callables and to the PDF, and the handling of absent flavours are observed in isolation; (ii) real outputs x (xiR,xiF) x PDFs against an independent contraction incl. linearity; "
     "(iii) the theory-card path over FNS x NfFF x PTO x reference couplings x kThr x ModEv x XIR on a muR lattice built from the matching scales (k m (1±1e-9), sqrt(k) m, interior of the k-windows), the coupling actually used "
     "being extracted from a one-hot output and compared with an independent Runge-Kutta solution with threshold matching."
+    " The theory-card path also covers non-default masses, mass reference scales Qm != m and the card's alphaqed, XIR and XIF (one-hot outputs with alpha and mixed-log keys, Q2-dependent PDF)."
 )
 LEVEL_NOTE = "Trusted: ref_apply (beta-function coefficients, pole-mass matching coefficients, DOP853). HQ=POLE only; QED running not covered; TRN only structurally."
 TECHNIQUE = "bounded-exhaustive enumeration (one-hot order keys x scales; theory cards x boundary scales) with conformance to an executable reference"
